@@ -42,6 +42,7 @@ func runC18(x *Ctx) {
 	S := ioFunctionSet(x)
 	x.C.Extra["stream_functions"] = len(S)
 	errorDiscipline(x, S)
+	deferredErrorCells(x, S)
 
 	if f := x.fn("C18.R2", ctnPkg+"ldRead"); f != nil {
 		ldReadRules(x, f)
@@ -215,6 +216,69 @@ func errorDiscipline(x *Ctx, S map[*ssa.Function]bool) {
 				call := in.(*ssa.Call)
 				ok2, detail := errorHandled(x, f, call)
 				x.C.Obl("C18.R1", key, pos, "the error of "+label+" is propagated, tested (with failure on non-nil), stored, or handed to the consumer", ok2, detail)
+			}
+		}
+	}
+}
+
+// deferredErrorCells: a function literal run by defer can hand an error to the caller only through a named
+// result of the enclosing function. An error it stores into any other captured variable (a local that merely
+// has the usual name) is lost: the function reports success although the deferred flush / close failed.
+func deferredErrorCells(x *Ctx, S map[*ssa.Function]bool) {
+	errT := types.Universe.Lookup("error").Type()
+	var fns []*ssa.Function
+	for f := range S {
+		fns = append(fns, f)
+	}
+	sort.Slice(fns, func(i, j int) bool { return load.ShortName(fns[i]) < load.ShortName(fns[j]) })
+	for _, parent := range fns {
+		for _, b := range parent.Blocks {
+			for _, in := range b.Instrs {
+				d, ok := in.(*ssa.Defer)
+				if !ok {
+					continue
+				}
+				mc, ok := d.Call.Value.(*ssa.MakeClosure)
+				if !ok {
+					continue
+				}
+				cf := mc.Fn.(*ssa.Function)
+				for i, fv := range cf.FreeVars {
+					pt, ok := fv.Type().Underlying().(*types.Pointer)
+					if !ok || !types.Identical(pt.Elem(), errT) || i >= len(mc.Bindings) {
+						continue
+					}
+					stores := false
+					for _, r := range *fv.Referrers() {
+						if st, ok := r.(*ssa.Store); ok && st.Addr == ssa.Value(fv) {
+							stores = true
+						}
+					}
+					if !stores {
+						continue
+					}
+					cell, _ := mc.Bindings[i].(*ssa.Alloc)
+					isResult := false
+					if cell != nil {
+						for _, r := range *cell.Referrers() {
+							if u, ok := r.(*ssa.UnOp); ok {
+								for _, r2 := range *u.Referrers() {
+									if ret, ok := r2.(*ssa.Return); ok {
+										for _, res := range ret.Results {
+											if res == ssa.Value(u) {
+												isResult = true
+											}
+										}
+									}
+								}
+							}
+						}
+					}
+					name := fv.Name()
+					x.C.Obl("C18.R1", load.ShortName(parent)+"|deferred-error-cell:"+name, x.P.Pos(d.Pos()),
+						"an error stored by a deferred function literal goes into a named result of the enclosing function", isResult,
+						"the deferred function literal stores an error into "+name+", which is not a named result of "+load.ShortName(parent)+": the error (of a final flush, a close) never reaches the caller")
+				}
 			}
 		}
 	}
